@@ -230,6 +230,57 @@ def blotter_protocol(ctx, bt, specs, corr="blotter:rows-per-call"):
     ctx.protocols.append((corr, len(meta), nd))
 
 
+def gen_named_frame_spec(rng):
+    """frames handed over by name through `additional_data` (Backtest re-frames those whose index is the data's index with a
+    synthetic first row): a statistic / a target-weight frame on the full index with NaN gaps - warm-up rows, a name missing for a
+    stretch - consumed on every date"""
+    spec = R.gen_run_spec(rng, nested=False, T=rng.randint(8, 16))
+    tk = spec["tickers"]
+    for t in tk:
+        spec["prices"][t] = [p if p is not None else 10.0 for p in spec["prices"][t]]
+    T = len(spec["dates"])
+    kind = rng.choice(["stat", "stat", "target"])
+    cells = {}
+    for t in tk:
+        col = [float(rng.randint(1, 40)) / (1.0 if kind == "stat" else 80.0) for _ in range(T)]
+        for _ in range(rng.randint(0, 2)):
+            i = rng.randint(0, T - 1)
+            for k in range(i, min(T, i + rng.randint(1, 3))):
+                col[k] = None
+        cells[t] = col
+    if rng.random() < 0.5:
+        w = rng.randint(1, 3)       # a common warm-up: the first rows are NaN for every name
+        for t in tk:
+            cells[t][:w] = [None] * w
+    spec["named"] = {"kind": kind, "cells": cells, "n": rng.randint(1, max(1, len(tk) - 1)), "desc": rng.random() < 0.5}
+    spec["kind"] = "named"
+    return spec
+
+
+def build_named(bt, spec):
+    sp = copy.deepcopy(spec)
+    nm = sp["named"]
+    cells = nm["cells"]
+    pt = sp.get("perturb")
+    if pt:
+        import random as _r
+        r = _r.Random(pt.get("seed", 0))
+        cut = pd.Timestamp(pt["cut"])
+        for t, col in cells.items():
+            for i, d in enumerate(sp["dates"]):
+                if pd.Timestamp(d) > cut:
+                    col[i] = None if (pt["mode"] == "nan" or col[i] is None) else col[i] * r.uniform(0.1, 3.0) + r.uniform(0, 1) * (1.0 if nm["kind"] == "stat" else 0.01)
+    frame = R.frame(cells, sp["dates"])
+    data = R.frame(sp["prices"], sp["dates"])
+    a = bt.algos
+    if nm["kind"] == "stat":
+        algos = [a.RunDaily(), a.SelectAll(), a.SetStat("extra"), a.SelectN(nm["n"], sort_descending=nm["desc"]), a.WeighEqually(), a.Rebalance()]
+    else:
+        algos = [a.RunDaily(), a.WeighTarget("extra"), a.Rebalance()]
+    s = bt.Strategy("top", algos=algos, children=list(sp["tickers"]))
+    return bt.Backtest(s, data, initial_capital=sp["capital"], integer_positions=sp["integer"], additional_data={"extra": frame}, progress_bar=False)
+
+
 def gen_plan(rng, dates):
     i = rng.randint(0, len(dates) - 2)
     return {"cut": dates[i], "mode": rng.choice(["nan", "x10", "flip", "random", "random", "drop"]), "seed": rng.randint(0, 10 ** 6),
@@ -279,6 +330,14 @@ def run(ctx, bt, scale=1):
         ctx.evaluations += 1
         ctx.classes.add(("frames", kind, spec["perturb_plan"]["mode"], spec["perturb_plan"]["pos"]))
         run_pair(ctx, bt, spec, build_program)
+    # frames passed by name through additional_data, on the full index, with NaN gaps
+    for _ in range(ctx.scale(40, 600) * scale):
+        spec = gen_named_frame_spec(ctx.rng)
+        spec["perturb_plan"] = gen_plan(ctx.rng, spec["dates"])
+        spec["perturb_plan"]["mode"] = "nan" if spec["perturb_plan"]["mode"] in ("drop", "nan") else "random"
+        ctx.evaluations += 1
+        ctx.classes.add(("named-frame", spec["named"]["kind"], spec["perturb_plan"]["mode"], spec["perturb_plan"]["pos"]))
+        run_pair(ctx, bt, spec, build_named)
     # programs driven by a blotter / a request list (rows in any order, also dated between data dates)
     bspecs = []
     for _ in range(ctx.scale(40, 600) * scale):
@@ -324,4 +383,4 @@ def replay(bt, data, ctx):
         run_risk_pair(ctx, bt, case["risk_spec"], case["cut_i"])
         return
     spec = case["spec"]
-    run_pair(ctx, bt, spec, build_fi if case.get("kind") == "fi" else build_blotter if case.get("kind") == "blotter" else build_program)
+    run_pair(ctx, bt, spec, build_fi if case.get("kind") == "fi" else build_blotter if case.get("kind") == "blotter" else build_named if case.get("kind") == "named" else build_program)
